@@ -6,6 +6,7 @@ package couchbase
 // Couchbase metadata backend and membership keys (C01, C02, C05, C14).
 
 //@ func getCheckpointID
+//@ params vbID groupName
 //@ props C14 C01 C02
 //@ panics.ambiguous[C14] contains(groupName, ".")
 //@ returns.plain[C14] !contains(groupName, ".")
@@ -14,6 +15,7 @@ package couchbase
 //@ modifies nothing
 
 //@ func (*cbMetadata).saveVBucketCheckpoint$1
+//@ freevars vbID s checkpointDocument ctx
 //@ props C01 C02 C05 C14 C20
 //@ requires s != nil && s.config != nil && s.client != nil && ctx != nil
 //@ let id = dret("couchbase.getCheckpointID", 0, 0)
@@ -29,12 +31,14 @@ package couchbase
 //@ modifies calls("couchbase.getCheckpointID"), calls("couchbase.UpsertXattrs"), calls("couchbase.CreateDocument"), calls("gocbcore.(*Agent).MutateIn"), calls("gocbcore.(*Agent).Set"), calls(couchbase.AsyncOp.Wait), calls(gocbcore.PendingOp.Cancel), calls(select.case), calls(couchbase.Client.GetMetaAgent), chan(uninterp("ctx.done", ctx))
 
 //@ func (*cbMetadata).saveVBucketCheckpoint
+//@ params s ctx vbID checkpointDocument
 //@ props C01 C05
 //@ requires s != nil
 //@ ensures.closure[C01,C05] isclosure(result, "couchbase.(*cbMetadata).saveVBucketCheckpoint$1") && captured(result, "couchbase.(*cbMetadata).saveVBucketCheckpoint$1", "s") == s && captured(result, "couchbase.(*cbMetadata).saveVBucketCheckpoint$1", "vbID") == vbID && captured(result, "couchbase.(*cbMetadata).saveVBucketCheckpoint$1", "checkpointDocument") == checkpointDocument && captured(result, "couchbase.(*cbMetadata).saveVBucketCheckpoint$1", "ctx") == ctx
 //@ modifies nothing
 
 //@ func (*cbMetadata).Save
+//@ params s state dirtyOffsets _
 //@ props C01 C02 C05 C20
 //@ requires s != nil && s.config != nil && state != nil
 //@ let g0 = old(ncalls("errgroup.(*Group).Go"))
@@ -56,12 +60,14 @@ package couchbase
 // ---------- membership documents: keys under the reserved prefix (C14) ----------
 
 //@ func (*cbMembership).createIndex
+//@ params h ctx clusterJoinTime
 //@ props C14
 //@ requires h != nil && h.client != nil && ctx != nil
 //@ check.key[C14] dcalls("couchbase.CreatePath") == 1 && darg("couchbase.CreatePath", 0, id) == h.instanceAll && darg("couchbase.CreatePath", 0, path) == h.id && result == dret("couchbase.CreatePath", 0, 0)
 //@ modifies calls("couchbase.CreatePath"), calls("gocbcore.(*Agent).MutateIn"), calls(couchbase.AsyncOp.Wait), calls(gocbcore.PendingOp.Cancel), calls(select.case), calls(couchbase.Client.GetMetaAgent), chan(uninterp("ctx.done", ctx))
 
 //@ func (*cbMembership).heartbeat
+//@ params h
 //@ props C14 C20
 //@ requires h != nil && h.client != nil && h.membershipConfig != nil
 //@ check.key[C14] dcalls("couchbase.UpdateDocument") == 1 && darg("couchbase.UpdateDocument", 0, id) == h.id
@@ -69,6 +75,7 @@ package couchbase
 //@ modifies calls("couchbase.UpdateDocument"), calls("gocbcore.(*Agent).MutateIn"), calls(couchbase.AsyncOp.Wait), calls(gocbcore.PendingOp.Cancel), calls(select.case), calls(couchbase.Client.GetMetaAgent), calls("time.(Time).UnixNano")
 
 //@ func (*cbMembership).updateIndex
+//@ params h ctx instances cas
 //@ props C14 C10
 //@ requires h != nil && h.client != nil && ctx != nil
 //@ loop 1
@@ -77,24 +84,28 @@ package couchbase
 //@ modifies calls("couchbase.UpdateDocument"), calls("gocbcore.(*Agent).MutateIn"), calls(couchbase.AsyncOp.Wait), calls(gocbcore.PendingOp.Cancel), calls(select.case), calls(couchbase.Client.GetMetaAgent), chan(uninterp("ctx.done", ctx))
 
 //@ func (*cbMembership).register
+//@ params h
 //@ props C14
 //@ requires h != nil && h.client != nil && h.membershipConfig != nil
 //@ check.keys[C14] (forall i int :: 0 <= i && i < dcalls("couchbase.UpdateDocument") ==> darg("couchbase.UpdateDocument", i, id) == h.id) && (forall i int :: 0 <= i && i < dcalls("couchbase.CreateDocument") ==> darg("couchbase.CreateDocument", i, id) == h.id) && dcalls("couchbase.(*cbMembership).createIndex") == 1 && darg("couchbase.(*cbMembership).createIndex", 0, h) == h
 //@ modifies h.clusterJoinTime, calls("couchbase.(*cbMembership).createIndex"), calls("couchbase.CreatePath"), calls("couchbase.UpdateDocument"), calls("couchbase.CreateDocument"), calls("gocbcore.(*Agent).MutateIn"), calls("gocbcore.(*Agent).Set"), calls(couchbase.AsyncOp.Wait), calls(gocbcore.PendingOp.Cancel), calls(select.case), calls(couchbase.Client.GetMetaAgent), calls("time.(Time).UnixNano")
 
 //@ func (*cbMembership).startHeartbeat
+//@ params h
 //@ props C14
 //@ trusted
 //@ requires h != nil
 //@ modifies h.heartbeatRunning
 
 //@ func (*cbMembership).startMonitor
+//@ params h
 //@ props C14
 //@ trusted
 //@ requires h != nil
 //@ modifies h.monitorRunning
 
 //@ func NewCBMembership
+//@ params config client bus
 //@ props C14 C15
 //@ requires config != nil && client != nil && bus != nil && logger.Log != nil
 //@ let cbm = as(result, "*cbMembership")
